@@ -1110,6 +1110,13 @@ impl World {
         if cp.heads.len() > 1 {
             self.bump("probe.reload_until_multihead");
         }
+        if self.is(&["C13"]) {
+            // the commit graph monitors also hold in a time-travelled state
+            let st = RefState::from_items_until(&self.replicas[r].disk.items(), Some(&cp.heads));
+            self.check_block_status(r, &st, "reload_until")?;
+            self.check_graph(r, &st, "reload_until")?;
+            self.bump("probe.graph_checked_in_time_travel");
+        }
         if self.is(&["C14"]) {
             let after = self.digest_of(r)?;
             if after != cp.digest {
